@@ -69,7 +69,7 @@ func Keys() []string {
 		}
 	}
 	rec("")
-	out = append(out, "\x00\xffa", "x{a}y", "{ab}c", "A", "Ab", CheckpointKey, CheckpointKey+"-abcd", CheckpointKey+"x", "redis-shake-checkpoin", "lua")
+	out = append(out, "\x00\xffa", "x{a}y", "{ab}c", "a}b{ab}c", "}{ab}", "{}{ab}", "{ab}{c}", "a{b{ab}", "A", "Ab", CheckpointKey, CheckpointKey+"-abcd", CheckpointKey+"x", "redis-shake-checkpoin", "lua")
 	return out
 }
 
